@@ -282,6 +282,90 @@ def part_valuesets(ctx, ct, jobs):
         "corr:is_disjoint agrees with model", False, "corr-shard", "a, b = %r" % (dmeta[i],))))
 
 
+# ---------------------------------------------------------------- aliasing ---------------
+# ValueSet is MUTABLE (add_value / add_range work in place; encoder/pictures.py does
+# allowed_values_for(...).add_value(False)).  "After any sequence of additions and unions" therefore
+# includes additions made to the RESULT of a union / allowed_values_for / a CSV read: they must not
+# change the operands, the table or another cell.  The Coq model is functional (operands are values),
+# so the model's value of every operand after such additions is simply its value before.
+MARKS = [N + 1, N + 2, N + 3]      # inside U, never generated as a member: adding one always changes a plain set
+
+
+def gen_adds(rng):
+    return [rng.choice(MARKS)] + gen_items(rng, rng.choice([0, 0, 1, 2]), False)
+
+
+def apply_adds(vs, adds):
+    for it in adds:
+        if isinstance(it, (tuple, list)):
+            vs.add_range(it[0], it[1])
+        else:
+            vs.add_value(it)
+
+
+def wrap_adds(e, adds):
+    for it in adds:
+        e = ("addr", e, it[0], it[1]) if isinstance(it, (tuple, list)) else ("addv", e, it)
+    return e
+
+
+def members_ok(ct, vs, den):
+    return all((q in vs) == (True if den is None else q in den) for q in U)
+
+
+def run_alias_chain(ct, ops, adds_list):
+    """acc = ops[0] + ops[1]; additions to acc in place; acc = acc + ops[2]; additions; ...
+    After every step EVERY object seen so far (operands, earlier results) is re-observed.
+    Returns (tracked [(label, expression, object)], problems [text])."""
+    objs = [evaluate(ct, e) for e in ops]
+    tracked = [("operand %d" % j, ops[j], objs[j]) for j in range(len(ops))]
+    problems = []
+    acc, acc_e = objs[0], ops[0]
+    for j in range(1, len(ops)):
+        r = acc + objs[j]
+        if not isinstance(acc, ct.AnyValue) and not isinstance(objs[j], ct.AnyValue) and (r is acc or r is objs[j]):
+            problems.append("union %d returned the %s operand object itself" % (j, "left" if r is acc else "right"))
+        apply_adds(r, adds_list[j - 1])
+        e = wrap_adds(("union", acc_e, ops[j]), adds_list[j - 1])
+        tracked.append(("result %d" % j, e, r))
+        acc, acc_e = r, e
+        for lab, te, to in tracked:
+            if not members_ok(ct, to, denotation(te)):
+                problems.append("after adding %r to the result of union %d, %s = %s no longer holds what was added to IT" % (adds_list[j - 1], j, lab, to))
+    return tracked, problems
+
+
+def part_aliasing(ctx, ct, jobs):
+    rng = ctx.rng
+    n = ctx.pick(250, 3000)
+    cases, meta = [], []
+    fixed = [[("ctor", []), ("ctor", [3])], [("ctor", [3]), ("ctor", [])], [("ctor", []), ("ctor", [])],
+             [("ctor", []), ("ctor", [(2, 5)]), ("ctor", [7])], [("ctor", []), ("any",)], [("any",), ("ctor", [])],
+             [("ctor", []), ("ctor", []), ("ctor", [1, (4, 6)])]]
+    for i in range(n):
+        if i < len(fixed):
+            ops = fixed[i]
+        else:
+            ops = []
+            for _ in range(rng.choice([2, 2, 3, 4])):
+                r = rng.random()
+                ops.append(("ctor", []) if r < 0.3 else (("any",) if r < 0.38 else gen_expr(rng, rng.choice([0, 0, 1]), False)))
+        adds_list = [gen_adds(rng) for _ in ops[1:]]
+        tracked, problems = run_alias_chain(ct, ops, adds_list)
+        nempty = sum(1 for e in ops if e == ("ctor", []))
+        ctx.count(1, key=("alias", repr(ops), repr(adds_list)), bucket="alias:union-chain:%s" % ("with-empty-operand" if nempty else "no-empty-operand"))
+        if problems:
+            ctx.violation("ValueSet.__add__:result-shares-state-with-operand", {"kind": "alias", "ops": ops, "adds": adds_list},
+                          problems[0], observed=problems[:4], expected="operands unchanged by additions to the result")
+        # model side: the (functional) model's value of every tracked expression against its FINAL observation
+        for lab, te, to in tracked:
+            cases.append("(%s, %s, %s, %s)" % (c_expr(te), clist(U), cbool(True), c_obs(observe(ct, to))))
+            meta.append((ops, adds_list, lab))
+    ctx.sample({"alias_chain": {"ops": fixed[3], "adds": [[N + 1], [N + 2]]}})
+    jobs.append(("vs_alias", "check_expr", cases, 250, lambda i: ctx.obligation(
+        "corr:operands/results after in-place additions to union results agree with the (functional) model", False, "corr-shard", repr(meta[i]))))
+
+
 # ---------------------------------------------------------------- part B: tables ---------
 NKEYS = 5
 
@@ -349,6 +433,31 @@ def run_level_check(ct, asr, VNA, T, kvs):
         asr.LEVEL_CONSTRAINTS = saved
 
 
+def table_alias_run(ct, T, Tden, vals, k, k2, adds, adds2, lit):
+    """Mutate, in place, what allowed_values_for / filter_constraint_table returned; returns a description of
+    the damage to the table (None = table unchanged)."""
+    cells = [v for col in T for v in col.values()]
+    before = (ct.is_allowed_combination(T, vals), [[q in ct.allowed_values_for(T, kk, vals) for q in U] for kk in range(NKEYS)])
+    why = None
+    for kk, vv, ad in ((k, vals, adds), (k2, {}, adds2)):
+        r = ct.allowed_values_for(T, kk, vv)
+        if not isinstance(r, ct.AnyValue) and any(r is c for c in cells):
+            why = why or "allowed_values_for(table, %r, %r) returned the table's own cell object" % (kk, dict(vv))
+        apply_adds(r, ad)
+    f = ct.filter_constraint_table(T, vals)
+    f.append(OrderedDict())
+    for j, (col, cd) in enumerate(zip(T, Tden)):
+        for kk, v in col.items():
+            if not members_ok(ct, v, cd[kk]):
+                why = why or "after add_value/add_range on the returned sets, table column %d key %r became %s" % (j, kk, v)
+    if len(T) != len(Tden) or c_table(ct, T) != lit:
+        why = why or "the table changed after in-place additions to returned results"
+    after = (ct.is_allowed_combination(T, vals), [[q in ct.allowed_values_for(T, kk, vals) for q in U] for kk in range(NKEYS)])
+    if after != before:
+        why = why or "is_allowed_combination / allowed_values_for answers changed after in-place additions to an earlier result"
+    return why
+
+
 def part_tables(ctx, ct, asr, VNA, jobs):
     rng = ctx.rng
     n = ctx.pick(500, 8000)
@@ -370,6 +479,16 @@ def part_tables(ctx, ct, asr, VNA, jobs):
         Tden = [dict((kk, denotation(ce)) for kk, ce in col.items()) for col in Te]
         catch_all = any(len(col) == 0 for col in T)
         av = evaluate(ct, ("ctor", gen_items(rng, 2, False)))
+        # ---- results handed out earlier are modified IN PLACE (as encoder/pictures.py does): the table must not change.
+        # The literal given to Coq is taken BEFORE, every observation below AFTER these modifications.
+        lit = c_table(ct, T)
+        cells = [v for col in T for v in col.values()]
+        k2 = rng.randrange(NKEYS)
+        adds, adds2 = gen_adds(rng), gen_adds(rng)
+        ainp = {"kind": "table-alias", "table": [list(c.items()) for c in Te], "values": list(vals.items()), "key": k, "key2": k2, "adds": adds, "adds2": adds2}
+        why = table_alias_run(ct, T, Tden, vals, k, k2, adds, adds2, lit)
+        if why:
+            ctx.violation("allowed_values_for:result-shares-state-with-table", ainp, why, expected="table unchanged by additions to a returned ValueSet")
         # ---- observations
         flt = ct.filter_constraint_table(T, vals)
         idx = [j for j, col in enumerate(T) if any(col is f for f in flt)]
@@ -377,7 +496,7 @@ def part_tables(ctx, ct, asr, VNA, jobs):
         avf = ct.allowed_values_for(T, k, vals)
         avf2 = ct.allowed_values_for(T, k, vals, av)
         tcases.append("(%s, %s, %s, %s, %s, %s, %s, %s)" % (
-            c_table(ct, T), c_assign(vals), cz(k), c_vset(vs_state(ct, av)), clist(idx), cbool(allowed),
+            lit, c_assign(vals), cz(k), c_vset(vs_state(ct, av)), clist(idx), cbool(allowed),
             c_vset(vs_state(ct, avf)), c_vset(vs_state(ct, avf2))))
         tmeta.append((Te, vals, k))
         ctx.count(1, key=("tbl", repr(Te), repr(vals), k) if (0 < len(idx) < len(T)) else None,
@@ -643,6 +762,24 @@ def check_csv_case(ctx, ct, rows, names, table, inp, universe):
                     return
 
 
+def csv_alias_run(ct, obs, ci, kk, adds, pre):
+    """add to cell (column ci, key kk) in place; (damage description | None, table literal afterwards with that one cell as read)"""
+    why = None
+    plain = [v for col in obs for v in col.values() if not isinstance(v, ct.AnyValue)]
+    if len(set(id(v) for v in plain)) != len(plain):
+        why = "two cells of the table read are the same ValueSet object"
+    snap = vs_state(ct, obs[ci][kk])
+    apply_adds(obs[ci][kk], adds)
+    post = clist(obs, lambda e: clist(list(e.items()), lambda kv: "(%s, %s)" % (
+        cz(kv[0]), c_vset(snap if kv[1] is obs[ci][kk] and False else vs_state(ct, kv[1])))))
+    # the modified cell itself is put back as read (by position), all others are observed after the modification
+    post = clist(list(enumerate(obs)), lambda ie: clist(list(ie[1].items()), lambda kv: "(%s, %s)" % (
+        cz(kv[0]), c_vset(snap if (ie[0] == ci and kv[0] == kk) else vs_state(ct, kv[1])))))
+    if post != pre:
+        why = why or "after adding %r to column %d key %r, another cell of the table changed too" % (adds, ci, kk)
+    return why, post
+
+
 def part_csv(ctx, ct, jobs):
     rng = ctx.rng
     n = ctx.pick(250, 4000)
@@ -666,6 +803,19 @@ def part_csv(ctx, ct, jobs):
         ctx.count(1, key=("csv", repr(rows)) if any(cs for _, cs in rows) else None,
                   bucket="csv:random:" + ("with-ditto" if ndit else "no-ditto"))
         check_csv_case(ctx, ct, rows, names, table, {"kind": "csv", "text": text, "rows": rows}, U)
+        # ---- a cell is modified in place: every OTHER cell (in particular the one a ditto copied) must stay as read
+        pre = c_table(ct, obs)
+        where = [(ci, kk) for ci, col in enumerate(obs) for kk in col]
+        if where:
+            ci, kk = rng.choice(where)
+            adds = gen_adds(rng)
+            why, post = csv_alias_run(ct, obs, ci, kk, adds, pre)
+            if why:
+                ctx.violation("read_constraints_from_csv:cells-share-state", {"kind": "csv-alias", "text": text, "cell": [ci, kk], "adds": adds}, why,
+                              expected="other cells unchanged by additions to one cell")
+                cases.append("(%s, %s)" % (c_rows(rows), post))      # model side: the other cells after the modification
+                meta.append(rows)
+            ctx.count(1, bucket="alias:csv-cell")
     ctx.sample({"csv_text": text})
     # the level tables shipped with the code (and the test suite's alternative one)
     for rel in ("vc2_conformance/level_constraints.csv", "tests/alternative_level_constraints.csv", "tests/sample_constraint_table.csv"):
@@ -857,10 +1007,14 @@ def run(ctx):
         "empty 'catch-all' columns), partial assignments, filter/is_allowed/allowed_values_for(+any_value), assert_level_constraint on "
         "sequences with distinct and repeated keys. C: random abstract CSV tables printed to text (ditto marks, any, ranges, bools, blank/"
         "comment rows, short rows, repeated keys) + the CSVs shipped in the repository. Oracle: brute-force sets over the universe. "
+        "Aliasing: chains of unions (empty left/right operands, AnyValue) whose results get in-place additions, then every operand and earlier result "
+        "re-observed; in-place additions to allowed_values_for results / filter lists, then table and answers re-observed (table literal for Coq taken before, "
+        "observations after); in-place additions to one CSV cell, other cells re-observed; identity: a plain union is never an operand object. "
         "Exhaustive (implementation only): every ValueSet(*items) with <= 4 items (thorough 5) over 0..4, containment; every pair of the <= 2-item sets and AnyValue, is_disjoint. "
         "Non-trivial: a set with members / a filter keeping some but not all columns / a non-empty sequence / a CSV with cells." % (N, U[0], U[-1]))
     jobs = []
     part_valuesets(ctx, ct, jobs)
+    part_aliasing(ctx, ct, jobs)
     part_tables(ctx, ct, asr, VNA, jobs)
     part_witnesses(ctx, ct, asr, VNA)
     part_exhaustive(ctx, ct)
@@ -944,6 +1098,39 @@ def replay(ctx, data):
         before = len(ctx.violations)
         check_csv_case(ctx, ct, rows, ["k%d" % k for k in range(8)], table, inp, U)
         bad = len(ctx.violations) > before
+    elif kind == "alias":
+        ops = [fix_expr(e) for e in inp["ops"]]
+        adds = [[tuple(x) if isinstance(x, list) else x for x in ad] for ad in inp["adds"]]
+        tracked, problems = run_alias_chain(ct, ops, adds)
+        for lab, te, to in tracked:
+            print(lab, "=", to, "| added to it:", sorted(denotation(te)) if denotation(te) is not None else "everything")
+        for pr in problems:
+            print("PROBLEM:", pr)
+        bad = bool(problems)
+    elif kind == "table-alias":
+        Te = [OrderedDict((int(a), tuple_expr(b)) for a, b in col) for col in inp["table"]]
+        T = [OrderedDict((kk, evaluate(ct, ce)) for kk, ce in col.items()) for col in Te]
+        Tden = [dict((kk, denotation(ce)) for kk, ce in col.items()) for col in Te]
+        vals = OrderedDict((int(a), b) for a, b in inp["values"])
+        fixa = lambda ad: [tuple(x) if isinstance(x, list) else x for x in ad]
+        print("table before:", T)
+        why = table_alias_run(ct, T, Tden, vals, inp["key"], inp["key2"], fixa(inp["adds"]), fixa(inp["adds2"]), c_table(ct, T))
+        print("table after in-place additions to the sets returned by allowed_values_for:", T)
+        print("PROBLEM:" if why else "table unchanged", why or "")
+        bad = bool(why)
+    elif kind == "csv-alias":
+        path = os.path.join(ctx.workdir, "replay.csv")
+        with io.open(path, "w", encoding="utf-8", newline="") as f:
+            f.write(inp["text"])
+        table = ct.read_constraints_from_csv(path)
+        obs = [OrderedDict((int(kk[1:]), v) for kk, v in col.items()) for col in table]
+        print(inp["text"])
+        print("read:", table)
+        ci, kk = inp["cell"]
+        why, _ = csv_alias_run(ct, obs, ci, kk, [tuple(x) if isinstance(x, list) else x for x in inp["adds"]], c_table(ct, obs))
+        print("after adding", inp["adds"], "to column", ci, "key", kk, ":", table)
+        print("PROBLEM:" if why else "other cells unchanged", why or "")
+        bad = bool(why)
     elif kind == "csvfile":
         p = os.path.join(REPO, inp["file"])
         names, rows = parse_real_csv(p)
